@@ -12,6 +12,8 @@ package fx
 import (
 	"fmt"
 	"runtime"
+	"strconv"
+	"strings"
 	"testing"
 	"time"
 
@@ -51,7 +53,189 @@ func c05GenFx(r *verifh.Rng) []verifh.Section {
 			fmt.Sprintf("run api=foreach items=%d pan=%d rs=%d", r.Range(1, 60), r.Pick(30, 100), r.Intn(1<<30)),
 		}})
 	}
+	secs = append(secs, c05GenOptSeqs(r)...)
 	return secs
+}
+
+// c05OptClass draws one option set of a stream: none (defaultWorkers), WithWorkers small / exactly the default /
+// above the default / <= 0 (floored to minWorkers), UnlimitedWorkers (fx only), and combinations (last
+// WithWorkers wins; unlimited is sticky within ONE option list).
+func c05OptClass(r *verifh.Rng, lib string) string {
+	w := func(k int) string { return "w" + strconv.Itoa(k) }
+	cls := []string{"none", "none", w(1), w(r.Range(2, 8)), w(r.Range(2, 8)), w(16), w(r.Range(17, 40)), w(0), w(-r.Range(1, 1000)),
+		w(r.Range(9, 30)) + "+" + w(r.Range(1, 4)), w(r.Range(1, 4)) + "+" + w(r.Range(17, 24))}
+	if lib == "fx" {
+		cls = append(cls, "unl", "unl", "unl+"+w(r.Range(1, 6)), w(r.Range(1, 6))+"+unl")
+	}
+	return cls[r.Intn(len(cls))]
+}
+
+// c05OptCap is the harness' own estimate of the cap of an option list (-1: unlimited). Only used to size the
+// run and to know when it is saturated; the verdict is the driver's (streamCap).
+func c05OptCap(opt string) int {
+	c, unl := 16, false
+	if opt != "none" {
+		for _, o := range strings.Split(opt, "+") {
+			if o == "unl" {
+				unl = true
+			} else if k, err := strconv.Atoi(strings.TrimPrefix(o, "w")); err == nil {
+				if k < 1 {
+					k = 1
+				}
+				c = k
+			}
+		}
+	}
+	if unl {
+		return -1
+	}
+	return c
+}
+
+// sequences of streams IN ONE PROCESS with different option sets: every stream is measured against its own cap
+// (state shared between streams — defaults structs, cached options — shows as a later stream running with
+// an earlier stream's options).
+func c05GenOptSeqs(r *verifh.Rng) []verifh.Section {
+	var secs []verifh.Section
+	for _, lib := range []string{"fx", "mr"} {
+		apis := []string{"walk", "map", "filter", "parallel"}
+		if lib == "mr" {
+			apis = []string{"foreach", "void", "mapreduce"}
+		}
+		for i := 0; i < verifh.Scale(7, 120); i++ {
+			var ops []string
+			k := r.Range(3, 7)
+			for j := 0; j < k; j++ {
+				opt := c05OptClass(r, lib)
+				// fixed openings: the interesting orders appear in every run
+				switch {
+				case i == 0 && lib == "fx" && j < 3:
+					opt = []string{"unl", "w" + strconv.Itoa(r.Range(1, 5)), "none"}[j]
+				case i == 1 && j < 3:
+					opt = []string{"w" + strconv.Itoa(r.Range(17, 40)), "none", "w" + strconv.Itoa(r.Range(1, 5))}[j]
+				case i == 2 && j < 2:
+					opt = []string{"w1", "none"}[j]
+				}
+				c := c05OptCap(opt)
+				items := r.Range(18, 30)
+				if c > 0 {
+					items = r.Pick(c+1, c+r.Range(1, 6), c+r.Range(1, 6), r.Range(1, c))
+				}
+				pan := r.Pick(0, 0, 20)
+				if lib == "mr" {
+					pan = r.Pick(0, 0, 0, 10)
+				}
+				ops = append(ops, fmt.Sprintf("run opt=%s api=%s items=%d pan=%d rs=%d", opt, apis[r.Intn(len(apis))], items, pan, r.Intn(1<<30)))
+			}
+			secs = append(secs, verifh.Section{Cfg: fmt.Sprintf("kind=%sopts mode=conc", lib), Ops: ops})
+		}
+	}
+	return secs
+}
+
+// c05StartOptSeq executes the streams of one `fxopts` / `mropts` section one after the other in this process.
+func c05StartOptSeq(cfg verifh.Cfg) (func(op []string) string, func()) {
+	lib := strings.TrimSuffix(cfg.Str("kind", ""), "opts")
+	step := func(op []string) string {
+		if op[0] != "run" {
+			return "bad-op"
+		}
+		p := c5.Params(op)
+		items, pan, opt, api := p.Int("items", 1), p.Int("pan", 0), p.Str("opt", "none"), p.Str("api", "")
+		var fxo []Option
+		var mro []mr.Option
+		if opt != "none" {
+			for _, o := range strings.Split(opt, "+") {
+				if o == "unl" && lib == "fx" {
+					fxo = append(fxo, UnlimitedWorkers())
+				} else if k, err := strconv.Atoi(strings.TrimPrefix(o, "w")); err == nil && strings.HasPrefix(o, "w") {
+					fxo = append(fxo, WithWorkers(k))
+					mro = append(mro, mr.WithWorkers(k))
+				} else {
+					return "bad-opt"
+				}
+			}
+		}
+		base := runtime.NumGoroutine()
+		sat := c5.NewSaturator()
+		body := func(item int) {
+			sat.Body(verifh.NewRng(uint64(p.Int("rs", 1))*1000003+uint64(item)), item, pan)
+		}
+		full := func() bool { return c5.BlockedIn("fx.Stream.walkLimited", "chan send") }
+		if lib == "mr" {
+			full = func() bool { return c5.BlockedIn("mr.executeMappers", "select") }
+		}
+		stop, watched := make(chan struct{}), make(chan struct{})
+		go func() {
+			defer close(watched)
+			sat.Watch(c05OptCap(opt), items, full, 5*time.Second, stop)
+		}()
+		src := func(source chan<- any) {
+			for i := 0; i < items; i++ {
+				source <- i
+			}
+		}
+		gen := func(source chan<- int) {
+			for i := 0; i < items; i++ {
+				source <- i
+			}
+		}
+		ended := c5.Watchdog(c5.StuckAfter, func() {
+			defer func() { _ = recover() }() // mr re-panics a mapper's panic in the caller
+			switch lib + "/" + api {
+			case "fx/walk":
+				From(src).Walk(func(item any, pipe chan<- any) {
+					body(item.(int))
+					pipe <- item
+				}, fxo...).Done()
+			case "fx/map":
+				From(src).Map(func(item any) any {
+					body(item.(int))
+					return item
+				}, fxo...).Done()
+			case "fx/filter":
+				From(src).Filter(func(item any) bool {
+					body(item.(int))
+					return item.(int)%2 == 0
+				}, fxo...).Done()
+			case "fx/parallel":
+				From(src).Parallel(func(item any) { body(item.(int)) }, fxo...)
+			case "mr/foreach":
+				mr.ForEach(gen, func(item int) { body(item) }, mro...)
+			case "mr/void":
+				_ = mr.MapReduceVoid(gen, func(item int, w mr.Writer[int], cancel func(error)) {
+					body(item)
+					w.Write(item)
+				}, func(pipe <-chan int, cancel func(error)) {
+					for range pipe {
+					}
+				}, mro...)
+			case "mr/mapreduce":
+				_, _ = mr.MapReduce(gen, func(item int, w mr.Writer[int], cancel func(error)) {
+					body(item)
+					w.Write(item)
+				}, func(pipe <-chan int, w mr.Writer[int], cancel func(error)) {
+					k := 0
+					for range pipe {
+						k++
+					}
+					w.Write(k)
+				}, mro...)
+			default:
+				panic("bad-api")
+			}
+		})
+		close(stop)
+		<-watched
+		if !ended {
+			return "stuck"
+		}
+		if !verifh.SettleGoroutines(base, 10*time.Second) {
+			return "TIMEOUT-goroutines " + sat.Line()
+		}
+		return sat.Line()
+	}
+	return step, nil
 }
 
 func c05StartWorkers(cfg verifh.Cfg) (func(op []string) string, func()) {
@@ -122,6 +306,8 @@ func TestVerifC05Workers(t *testing.T) {
 		switch cfg.Str("kind", "") {
 		case "fx", "mr":
 			return c05StartWorkers(cfg)
+		case "fxopts", "mropts":
+			return c05StartOptSeq(cfg)
 		}
 		return func([]string) string { return "bad-kind" }, nil
 	})
